@@ -15,7 +15,7 @@ modules = {'codec': 'lib/Chars, CodecOps, Codec, CodecBuild, trace/CodecTrace', 
            'nodeheap': 'NodeHeapOps, NodeHeap, trace/NodeHeapTrace', 'mergedocs': 'MergeDocsOps, MergeDocs, trace/MergeDocsTrace',
            'matching': 'MatchingOps, MatchingLogOps, Matching (PlusCal), trace/MatchingTrace', 'similarity': 'SimilarityOps, Similarity, NamesOps, Names, trace/SimilarityTrace, trace/NamesTrace',
            'document': 'DocumentOps, Document, trace/DocumentTrace', 'commands': 'CommandsOps, Commands, DiffPageOps, DiffPage (PlusCal), trace/CommandsTrace, trace/DiffPageTrace',
-           'query': 'QueryOps, Query, trace/QueryTrace, trace/QueryCrashTrace', 'publish': 'PublishOps, Publish (PlusCal), PublishCases, trace/PublishTrace',
+           'query': 'QueryOps, Query, trace/QueryTrace, trace/QueryCrashTrace', 'publish': 'PublishOps, Publish (PlusCal), PublishCases, PageNames, trace/PublishTrace',
            'htmlstructure': 'HtmlStructureOps, HtmlStructure, trace/HtmlStructureTrace', 'warnings': 'WarningsOps, Warnings, trace/WarningsTrace'}
 
 gen = {}
